@@ -56,6 +56,11 @@ def single(cfg, crate, rep):
             continue
         for callee, node, ps in common.calls_in(b):
             owner = name
+            if callee in ctor or callee in writers:
+                # a helper introduced by a later change acts on behalf of the (single) known function that reaches it
+                owners_ = common.known_owners(crate, name)
+                if len(owners_) == 1:
+                    owner = sorted(owners_)[0]
             if callee in ctor:
                 n += 1
                 rep.ob("C09.single", "%s|ctor|%s|%s" % (cfg, owner, callee.split("::")[-2] + "::" + callee.split("::")[-1]), owner in allowed_ctor and callee.endswith("::from_datetime"),
@@ -75,7 +80,10 @@ def single(cfg, crate, rep):
                 seen |= pl
                 via = calls_of(node["args"][0])
                 ok = (any(v.endswith("from_datetime") for v in via) and "dt_strip_nanos" in via) or "dt_to_generalized" in via
-                rep.ob("C09.single", "%s|%s|%s|%s" % (cfg, fn, "+".join(sorted(pl)), node["kind"]), ok and node["fn"] in allowed_writer,
+                wfn_ = node["fn"]
+                if wfn_ not in allowed_writer and len(common.known_owners(crate, wfn_)) == 1:
+                    wfn_ = sorted(common.known_owners(crate, wfn_))[0]
+                rep.ob("C09.single", "%s|%s|%s|%s" % (cfg, fn, "+".join(sorted(pl)), node["kind"]), ok and wfn_ in allowed_writer,
                        "time leaf is produced by the shared helper chain", found=sorted(via), sp=node.get("sp"))
     rep.ob("C09.single", "%s|fields" % cfg, seen == TIME_FIELDS, "every time-carrying field is encoded through the shared time helpers", expected=sorted(TIME_FIELDS), found=sorted(seen))
     rep.floor("C09.single", "time fields (%s)" % cfg, len(seen), 6)
